@@ -5,6 +5,7 @@ import (
 	"encoding/hex"
 	"fmt"
 	"sort"
+	"sync"
 	"time"
 
 	"github.com/ontio/ontology-crypto/keypair"
@@ -86,17 +87,19 @@ type VNode struct {
 
 // VbftNet is the W-vbft world.
 type VbftNet struct {
-	C       *simkit.Ctx
-	N       int
-	Cfault  int
-	Nodes   []*VNode
-	Sched   *simkit.Sched
-	Flight  []*NetMsg // in flight, ordered by (From, Seq, To)
-	nextID  int
-	sendSeq []int
-	Part    [][]bool // Part[i][j]: link i->j cut
-	Gen     *types.Block
-	Books   []keypair.PublicKey
+	C        *simkit.Ctx
+	N        int
+	Cfault   int
+	Nodes    []*VNode
+	Sched    *simkit.Sched
+	Flight   []*NetMsg // in flight, ordered by (From, Seq, To)
+	mu       sync.Mutex
+	arrivals []*NetMsg // sent since the last Settle, in the runtime's arrival order
+	nextID   int
+	sendSeq  []int
+	Part     [][]bool // Part[i][j]: link i->j cut
+	Gen      *types.Block
+	Books    []keypair.PublicKey
 	// OnSend lets a property intercept traffic (e.g. a Byzantine sender); return false to swallow.
 	OnSend func(m *NetMsg) bool
 	Sent   int
@@ -152,21 +155,56 @@ func (n *VbftNet) enqueue(from, to int, msg p2ptypes.Message) {
 	n.Inject(m)
 }
 
-// Inject puts a message on the wire (also used by Byzantine drivers).
+// Inject puts a message on the wire (also used by Byzantine drivers). The
+// servers send from goroutines the scheduler does not gate (`go p2p.SendTo`,
+// one per receiver), so their arrival order is the runtime's: arrivals are
+// only collected here and get their identity in Settle, in content order.
 func (n *VbftNet) Inject(m *NetMsg) {
-	n.nextID++
-	m.ID = n.nextID
-	n.sendSeq[m.From]++
-	m.Seq = n.sendSeq[m.From]
-	n.Sent++
-	if n.OnSend != nil && !n.OnSend(m) {
-		return
+	n.mu.Lock()
+	n.arrivals = append(n.arrivals, m)
+	n.mu.Unlock()
+}
+
+// Settle (root goroutine, after quiescence) numbers the messages sent since
+// the last call in an order that does not depend on which sending goroutine
+// ran first: by sender, receiver, kind, block and bytes.
+func (n *VbftNet) Settle() {
+	n.mu.Lock()
+	arr := n.arrivals
+	n.arrivals = nil
+	n.mu.Unlock()
+	sort.SliceStable(arr, func(i, j int) bool {
+		a, b := arr[i], arr[j]
+		if a.From != b.From {
+			return a.From < b.From
+		}
+		if a.To != b.To {
+			return a.To < b.To
+		}
+		if a.Kind != b.Kind {
+			return a.Kind < b.Kind
+		}
+		if a.Blk != b.Blk {
+			return a.Blk < b.Blk
+		}
+		return bytes.Compare(a.Wire, b.Wire) < 0
+	})
+	for _, m := range arr {
+		n.nextID++
+		m.ID = n.nextID
+		n.sendSeq[m.From]++
+		m.Seq = n.sendSeq[m.From]
+		n.Sent++
+		if n.OnSend != nil && !n.OnSend(m) {
+			continue
+		}
+		n.Flight = append(n.Flight, m)
 	}
-	n.Flight = append(n.Flight, m)
 }
 
 // SortFlight orders the in-flight set by (sender, per-sender sequence, receiver): never by content.
 func (n *VbftNet) SortFlight() {
+	n.Settle()
 	sort.SliceStable(n.Flight, func(i, j int) bool {
 		a, b := n.Flight[i], n.Flight[j]
 		if a.From != b.From {
@@ -260,7 +298,18 @@ func NewVbftNet(c *simkit.Ctx, n, cfault int) *VbftNet {
 	c.Must(err, "BuildGenesisBlock(vbft)")
 	net.Gen = gen
 	simhook.YieldFn = net.Sched.Yield
-	c.Defer(func() { simhook.YieldFn = nil })
+	// Go's map iteration order cannot be seeded; where a server's decision depends
+	// on it (which endorser's signatures are counted first) the run owns the order:
+	// ascending keys rotated by an amount fixed by the run seed, node and key count
+	runSeed := c.Tape.Seed
+	simhook.OrderFn = func(site string, a int, keys []uint32) []uint32 {
+		if len(keys) < 2 {
+			return keys
+		}
+		r := int(simkit.Mix(runSeed, uint64(a), uint64(len(keys))) % uint64(len(keys)))
+		return append(append([]uint32{}, keys[r:]...), keys[:r]...)
+	}
+	c.Defer(func() { simhook.YieldFn = nil; simhook.OrderFn = nil })
 	vbftNetSeq++
 	for i := 0; i < n; i++ {
 		nd := &VNode{I: i, Acc: accs[i]}
@@ -349,6 +398,7 @@ func (n *VbftNet) StopNode(nd *VNode) {
 	if nd.Srv == nil {
 		return
 	}
+	n.Settle() // what was sent before the stop is on the wire
 	nd.Down = true
 	nd.Srv.SimBeginStop()
 	// let this node's goroutines run to their exits
@@ -375,6 +425,17 @@ func (n *VbftNet) StopNode(nd *VNode) {
 		nd.Pool.Stop()
 	}
 	Quiesce()
+	// whatever the dying server still sent while its goroutines raced to their exits never left the machine
+	n.mu.Lock()
+	kept := n.arrivals[:0]
+	for _, m := range n.arrivals {
+		if m.From != nd.I {
+			kept = append(kept, m)
+		}
+	}
+	n.arrivals = kept
+	n.mu.Unlock()
+	n.Sched.ResetOwner(nd.I + 1)
 	n.dead = append(n.dead, nd.Srv)
 	nd.Srv = nil
 }
@@ -416,6 +477,7 @@ func (n *VbftNet) Shutdown() {
 		ReleaseDataDir(nd.Chain.Dir)
 	}
 	simhook.YieldFn = nil
+	simhook.OrderFn = nil
 }
 
 var _ = msgpack.NewConsensus
